@@ -4,14 +4,14 @@
    The model gives dimension semantics (sizing / rows / pack / render -> cols, rows, cursor, rect) to
    trees of Text-like leaves (arbitrary functions of width and focus), AttrMap (and LineBox's
    delegation), BoxAdapter, Padding, Filler, Pile, Columns, Frame and Overlay, mirroring the code.
-   Two outcomes of the model are markers, not failures of the widget that is rendered:
-     EStarved - some widget was handed a size with a component <= 0 (no room left by its container),
-     ECut     - some widget returned a canvas whose cursor lies outside it (canvas.py trims rows and
-                columns but only translates the cursor: the C01 known finding "cursor outside after trim").
-   [soft e] says e is one of the two.  The harness flags exactly these situations on the implementation. *)
+   One outcome of the model is a marker, not a failure of the widget that is rendered:
+     EStarved - some widget was handed a size with a component <= 0 (no room left by its container).
+   [soft e] says e is that marker.  The harness flags exactly this situation on the implementation.
+   (Before aa8a06a the trimming operations of canvas.py could leave a cursor outside the canvas and the
+   model needed a second marker for it; now the cursor clause is proved outright.) *)
 From Coq Require Import ZArith List Bool Lia.
 Import ListNotations.
-From Urwid Require Import WidgetDims WidgetDimsProofs WidgetDimsFrame WidgetDimsTree.
+From Urwid Require Import WidgetDims WidgetDimsProofs WidgetDimsFrame WidgetDimsOverlay WidgetDimsTree.
 Open Scope Z_scope.
 
 Definition WellFormed (w : widget) : Prop := wf_b w = true.
@@ -27,11 +27,12 @@ Definition render_contract_full : Prop :=
 
 (* ---- what is proved: box and flow sizes, trees of any depth built from leaves, AttrMap/LineBox
         delegation, BoxAdapter, Padding (given / pack / relative width), Filler (pack / given / relative
-        height), Pile (given / pack / weight items) and Frame (header / footer / any focus part), by
-        structural induction on the tree.
+        height), Pile (given / pack / weight items), Frame (header / footer / any focus part) and
+        Overlay with a given or relative width (packed / given / relative height, margins, alignment),
+        by structural induction on the tree.  The cursor clause is proved outright (no marker).
         Not covered: fixed sizing, Columns (hence LineBox, whose generated Pile contains Columns),
-        Overlay, clip Padding (see _refuted below for the parts of the full statement that are false of
-        the faithful model). ---- *)
+        Overlay with width='pack' (fixed top widget), clip Padding (see _refuted below for the part of
+        the full statement that is false of the faithful model). ---- *)
 Theorem render_contract_partial :
   forall w sz f, leaves_ok w -> WellFormed w -> proved_fragment w = true ->
     sz <> SFixed -> valid_for (m_sizing (denote w)) sz ->
@@ -87,6 +88,11 @@ Theorem frame_contract : forall body hd ft fpart,
   Good (frame_sem body hd ft fpart).
 Proof. exact frame_good. Qed.
 Print Assumptions frame_contract.
+Theorem overlay_contract : forall t b p,
+  Good t -> Good b -> s_box (m_sizing b) = true -> overlay_given p ->
+  overlay_top_ok (m_sizing t) p = true -> Good (overlay_sem t b p).
+Proof. exact overlay_good. Qed.
+Print Assumptions overlay_contract.
 
 (* ---- concrete leaves (they also show that the leaf hypothesis is satisfiable) ---- *)
 (* a one-line text *)
@@ -132,8 +138,8 @@ Proof.
   split; [intros; discriminate|]. intros c r f _ Hc Hr. cbn. repeat split; auto.
 Qed.
 
-(* ---- the full statement is FALSE of the faithful model: two witnesses, both replayed on the
-        implementation by corpus/C01 (known findings) ---- *)
+(* ---- the full statement is FALSE of the faithful model: a witness replayed on the implementation by
+        corpus/C01 (known finding C01-padding-fixed-pack-differs-from-render) ---- *)
 (* Padding(Text("a"), 'left', 'pack', min_width=2, right=1) as a fixed widget: pack(()) = (3, 1) but
    render(()) is 2 columns wide *)
 Definition padding_fixed_witness : widget := WPadding (WLeaf line_leaf) 0 WPack (Some 2) 0 1.
@@ -150,28 +156,24 @@ Example padding_fixed_witness_values :
   /\ m_render (denote padding_fixed_witness) SFixed false = Ok (mkC 2 1 None true).
 Proof. vm_compute. split; reflexivity. Qed.
 
-(* Overlay(Text("ab cd"), SolidFill, 'left', 1, 'top', 'pack').render((7, 1)): the height is asked at 7
-   columns (1 row), the top widget is rendered 1 column wide (4 rows): ValueError *)
+(* Overlay(Text("ab cd"), SolidFill, 'left', 1, 'top', 'pack').render((7, 1)) raised ValueError before
+   f18097d (the height was asked at 7 columns, the top widget rendered 1 column wide); repaired: regression *)
 Definition overlay_witness : widget :=
   WOverlay (WLeaf wrap_leaf) (WLeaf solid_leaf) (mkOv 0 (WGiven 1) 0 HPack None None 0 0 0 0).
-Theorem render_contract_full_refuted_overlay :
-  exists w sz f, leaves_ok w /\ WellFormed w /\ valid_for (m_sizing (denote w)) sz
-                 /\ m_render (denote w) sz f = Err EValue.
-Proof.
-  exists overlay_witness, (SBox 7 1), false.
-  split; [split; [apply leaf_good, wrap_leaf_ok | apply leaf_good, solid_leaf_ok]|].
-  split; [reflexivity|]. split; [cbn; lia|]. vm_compute. reflexivity.
-Qed.
-Print Assumptions render_contract_full_refuted_overlay.
+Example overlay_pack_height_repaired :
+  WellFormed overlay_witness /\ proved_fragment overlay_witness = true
+  /\ m_render (denote overlay_witness) (SBox 7 1) false = Ok (mkC 7 1 None true)
+  /\ m_render (denote overlay_witness) (SBox 7 9) false = Ok (mkC 7 9 None true).
+Proof. vm_compute. repeat split; reflexivity. Qed.
 
-(* the ECut marker really occurs inside the proved fragment: a box Pile whose given rows overflow
-   cuts the focused Edit away and keeps its cursor at row 5 of a 1-row canvas *)
+(* a box Pile whose given rows overflow cuts the focused Edit away; since aa8a06a the cursor is dropped
+   with the rows (it used to stay at row 5 of a 1-row canvas) *)
 Definition cut_witness : widget :=
   WPile (PCons (WLeaf solid_leaf) KGiven 5 (PCons (WLeaf edit_leaf) KPack 0 PNil)) 1.
-Example cursor_cut_happens :
+Example trimmed_cursor_is_dropped :
   wf_b cut_witness = true /\ proved_fragment cut_witness = true
-  /\ m_render (denote cut_witness) (SBox 1 1) true = Err ECut
-  /\ m_render (denote cut_witness) (SBox 1 1) false = Ok (mkC 1 1 None true).
+  /\ m_render (denote cut_witness) (SBox 1 1) true = Ok (mkC 1 1 None true)
+  /\ m_render (denote cut_witness) (SBox 4 8) true = Ok (mkC 4 8 (Some (0, 5)) true).
 Proof. vm_compute. repeat split; reflexivity. Qed.
 
 (* ---- non-vacuity: a tree of depth 4 inside the fragment, all hypotheses hold, and the model computes ---- *)
